@@ -81,7 +81,8 @@ def items(tier, seed):
     nnet = 5 if tier == 'quick' else 40
     for i in range(nnet):
         k = rnd.choice([2, 3, 3, 4] if tier != 'quick' else [2, 3, 3])
-        names = rnd.choice([None, ['Rain-1', 'Wet_Grass', 'X2', 'smoke'][:k]])
+        names = rnd.choice([None, ['Rain-1', 'Wet_Grass', 'X2', 'smoke'][:k], ['tub-er', 'tuber', 'out', 'Out'][:k], ['Smoke', 'smoke', 'S-moke'][:k]])
+        if i == 0: names = ['tub-er', 'tuber', 'out'][:k]        # names colliding after sanitising
         vs = gen_network(rnd, k, names)
         its.append(dict(name=f'net{i}', kind='net', vs=[(n, d, p, {','.join(c): [str(x) for x in ps] for c, ps in cpt.items()}) for n, d, p, cpt in vs], budget=200))
     its.append(dict(name='acceptance', kind='accept', budget=200))
@@ -141,6 +142,11 @@ def check_item(it):
         if st != 'ok': viol.append(dict(goal=f'notation {notation}/{order}', n=None, observed='rejected: ' + (se.strip().splitlines() or ['?'])[-1][:100], expected='accepted')); continue
         code = code_from(so)
         if not code: viol.append(dict(goal=f'notation {notation}', n=None, observed='no code printed', expected='generated loop')); continue
+        # the generated code documents its own name mapping:  # variable: <bif name> <=> <polar name>
+        mapping = dict(re.findall(r'# variable: (\S+) <=> (\S+)', code))
+        names = [mapping.get(v[0], polar_name(v[0])) for v in vs]
+        if len(set(names)) != len(names):
+            viol.append(dict(goal=f'name mapping [{notation}]', n=None, observed=str(mapping), expected='distinct loop variables for distinct network variables')); continue
         prog = lang.parse_program(code.replace('\t', '    ')); sem = lang.Sem(prog)
         ws = sem.iterate(sem.init_worlds())
         law = {}
